@@ -954,8 +954,7 @@ def isDfn (fns : List FDecl) (g : String) : Bool :=
   | none => false
 
 /-- variables are declared before use and never shadowed; defeat functions are called only in defeat contexts
-(`vd`: the list is inside the body of a `try` or of a defeat function), and only
-as statements (defeat functions that return a value are outside the modelled sub-language) -/
+(`vd`: the list is inside the body of a `try` or of a defeat function) -/
 def wfS (fns : List FDecl) : Bool → List String → S → Bool
   | _, _, .nil => true
   | _, _, .ret => true
@@ -973,8 +972,8 @@ def wfS (fns : List FDecl) : Bool → List String → S → Bool
   | vd, Γ, .tryUndo body handler k => wfS fns true Γ body && wfS fns vd Γ handler && wfS fns vd Γ k
   | _, Γ, .retE e => boundE Γ e
   | vd, Γ, .callS g args k => args.all (boundE Γ) && wfS fns vd Γ k && (vd || !isDfn fns g)
-  | vd, Γ, .declCall x g args k => args.all (boundE Γ) && !Γ.contains x && wfS fns vd (x :: Γ) k && !isDfn fns g
-  | vd, Γ, .assignCall x g args k => Γ.contains x && args.all (boundE Γ) && wfS fns vd Γ k && !isDfn fns g
+  | vd, Γ, .declCall x g args k => args.all (boundE Γ) && !Γ.contains x && wfS fns vd (x :: Γ) k && (vd || !isDfn fns g)
+  | vd, Γ, .assignCall x g args k => Γ.contains x && args.all (boundE Γ) && wfS fns vd Γ k && (vd || !isDfn fns g)
   | _, _, .brk => true
   | _, _, .cnt => true
   | vd, Γ, .tryStop body handler k => !Γ.contains "%ap" && wfS fns true ("%ap" :: Γ) body && wfS fns vd Γ handler && wfS fns vd Γ k
